@@ -61,6 +61,11 @@ pub fn gen(tier: &str, seed: u64) -> Vec<String> {
         ("(defsrc a b)\n(deflayer l0 (switch () (tap-hold 0 20 x y) fallthrough () (tap-hold 0 60 z w) break) b)\n", vec![1, 19, 20, 21, 30, 59, 60, 61, 200]),
         ("(defsrc a b)\n(deflayer l0 (switch ((key-timing 1 lt 100)) x break () y break) a)\n", vec![1, 50, 99, 100, 101, 300]),
         ("(defsrc a b c)\n(deflayer l0 (tap-hold 0 50 x y) (tap-hold 0 80 z w) c)\n", vec![1, 10, 49, 50, 79, 80, 81, 200]),
+        // outside the kanata-level model: decided by the paired runs alone (PAIR same / differ)
+        ("(defcfg concurrent-tap-hold yes chords-v2-min-idle 30)\n(defsrc a b c)\n(deflayer l0 a b c)\n(defchordsv2 (a b) x 50 all-released ())\n", vec![1, 10, 28, 29, 30, 31, 32, 49, 50, 51, 200]),
+        ("(defcfg concurrent-tap-hold yes chords-v2-min-idle 5)\n(defsrc c a b)\n(deflayer l0 c a b)\n(defchordsv2 (a b) x 40 first-release () (a c) y 20 all-released ())\n", vec![1, 4, 5, 6, 19, 20, 21, 39, 40, 41, 200]),
+        ("(defcfg sequence-timeout 50)\n(defvirtualkeys v1 z)\n(defseq v1 (b c))\n(defsrc a b c)\n(deflayer l0 sldr b c)\n", vec![1, 10, 48, 49, 50, 51, 52, 200]),
+        ("(defsrc a b c)\n(defoverrides (lsft b) (c))\n(deflayer l0 lsft b (one-shot 50 lsft))\n", vec![1, 10, 49, 50, 51, 200]),
         // key-timing tests on the SECOND key: the age of the first key's press is read when the second is
         // pressed, so the loop must not stop counting before the largest threshold (lt and gt alike)
         ("(defsrc a b)\n(deflayer l0 a (switch ((key-timing 1 lt 100)) x break () y break))\n", vec![1, 50, 98, 99, 100, 101, 102, 300]),
@@ -100,4 +105,41 @@ pub fn gen(tier: &str, seed: u64) -> Vec<String> {
         lines.push(mk_kline("KAN", false, &cfg, &h));
     }
     lines
+}
+
+
+/// `kan::eval`, and for configurations the kanata-level model does not cover (chords v2, overrides,
+/// sequences, ...) the property is still decided on the real code alone: the blocking loop and the
+/// always-ticking loop are both run and their OS events compared, time for time.
+pub fn eval(line: &str) -> String {
+    let out = crate::kan::eval(line);
+    if !out.starts_with("unsupported") {
+        return out;
+    }
+    let p = crate::kan::parse_kline(line);
+    if !p.hist.iter().any(|e| matches!(e, KEv::Gap(_))) {
+        return out;
+    }
+    let mut a = match crate::kan::Runner::new(&p.cfg_text) {
+        Ok(r) => r,
+        Err(_) => return out,
+    };
+    crate::kan::run_hist(&mut a, &p.hist, true, false);
+    let ta = a.out.clone();
+    drop(a);
+    let mut b = crate::kan::Runner::new(&p.cfg_text).unwrap();
+    crate::kan::run_hist_always_ticking(&mut b, &p.hist);
+    let tb = b.out.clone();
+    let verdict = if ta == tb {
+        "same".to_string()
+    } else {
+        let i = ta.iter().zip(tb.iter()).position(|(x, y)| x != y).unwrap_or(ta.len().min(tb.len()));
+        format!(
+            "differ@{}:{}/{}",
+            i,
+            ta.get(i).cloned().unwrap_or_else(|| "-".into()).replace(' ', "_"),
+            tb.get(i).cloned().unwrap_or_else(|| "-".into()).replace(' ', "_")
+        )
+    };
+    format!("{out} :: PAIR {verdict}")
 }
